@@ -3,11 +3,13 @@
    harness/props/C12.py) ARE the reference semantics: quaternion -> matrix is the conjugation action v |-> q v q^*,
    composition is the Hamilton product, matrix -> quaternion returns +-q, from_euler is the product of the elementary
    rotations in the documented order, from_rotvec / as_rotvec round-trip.
-   as_euler (Bernardes-Viollet) is proved in the regular case for all sequences (C12_as_euler_regular).
-   NOT proved (decided by three-way correspondence implementation / scipy only, see C12.py): as_euler at gimbal lock, mean,
+   as_euler (Bernardes-Viollet) is proved in the regular case for all sequences (C12_as_euler_regular) and at exact gimbal
+   lock (C12_as_euler_gimbal); in the band 0 < |second angle - lock| <= 1e-7 the code's answer is approximate (not covered).
+   NOT proved (decided by three-way correspondence implementation / scipy only, see C12.py): mean,
    align_vectors (beyond its Rodrigues kernel), from_matrix on non-orthogonal input. *)
 From MrVerif Require Import Base.Prelude Base.StarRing Model.Rotation Model.Euler
-  Proofs.RotationProofs Proofs.RotationRealProofs Proofs.RotationPowProofs Proofs.EulerProofs Proofs.EulerAnglesProofs.
+  Proofs.RotationProofs Proofs.RotationRealProofs Proofs.RotationPowProofs Proofs.EulerProofs Proofs.EulerAnglesProofs
+  Proofs.EulerGimbalProofs.
 From Coq Require Import Reals.
 
 (* _quaternion_to_matrix is the standard rotation matrix of q: M(q) v = vector part of q (v,0) q^*; and M(q) = M(-q) *)
@@ -83,6 +85,30 @@ Theorem C12_as_euler_regular : forall (quat : quatR) (seq : nat * nat * nat) (ex
   qmat RRing (from_euler (negb extrinsic) [s0; s1; s2] [e0; e1; e2]) = qmat RRing quat.
 Proof. exact as_euler_regular. Qed.
 Print Assumptions C12_as_euler_regular.
+(* ... and AT gimbal lock (the quantities (c, d) or (a, b) of the algorithm vanish exactly: second angle 0 / pi for proper Euler, -pi/2 / pi/2
+   for Tait-Bryan sequences), where the code sets the third angle to 0 and gives the whole in-plane rotation to the first: same statement,
+   all sequences, extrinsic and intrinsic.  (Repair 09a2fb1 made the code test for the lock before shifting the second angle; the model
+   has the repaired order.) *)
+Theorem C12_as_euler_gimbal : forall (quat : quatR) (seq : nat * nat * nat) (extrinsic : bool),
+  valid_seq seq -> qnorm2 RRing quat = 1%R -> euler_lock quat seq extrinsic ->
+  let '(e0, e1, e2) := quaternion_to_euler quat seq extrinsic in let '(s0, s1, s2) := seq in
+  qmat RRing (from_euler (negb extrinsic) [s0; s1; s2] [e0; e1; e2]) = qmat RRing quat.
+Proof. exact as_euler_gimbal. Qed.
+Print Assumptions C12_as_euler_gimbal.
+(* the algebra behind both: ANY polar form (a,b,c,d) = n (cos A cos hs, cos A sin hs, sin A cos hd, sin A sin hd) reproduces the quaternion *)
+Theorem C12_as_euler_polar : forall (quat : quatR) (q r s0 : nat) (A hs hd : R),
+  (q < 3)%nat -> (r < 3)%nat -> (s0 < 3)%nat -> q <> r -> r <> s0 -> euler_polar quat q r s0 A hs hd ->
+  let '(sym, sign, _) := euler_abcd quat q r s0 in
+  from_euler false [q; r; s0] [(hs - hd)%R; if sym then (2 * A)%R else (2 * A - PI / 2)%R; if sym then (hs + hd)%R else ((hs + hd) * sign)%R] = quat.
+Proof. exact ext_core_polar. Qed.
+Print Assumptions C12_as_euler_polar.
+(* non-vacuity: the identity is at the lock of every proper Euler sequence, the half turn about the middle axis at the other lock *)
+Example C12_gimbal_examples :
+  euler_lock (0, 0, 0, 1)%R (0, 1, 0)%nat true /\ qnorm2 RRing (0, 0, 0, 1)%R = 1%R /\
+  euler_lock (0, 1, 0, 0)%R (2, 1, 2)%nat false /\ qnorm2 RRing (0, 1, 0, 0)%R = 1%R.
+Proof.
+  unfold euler_lock, abcd_lock1, abcd_lock2, euler_abcd, abcd_sym; cbn; repeat split; try (left; split; ring); try (right; split; ring); ring.
+Qed.
 (* before wrapping to (-pi, pi] the extracted angles reproduce the quaternion itself (not only up to sign) *)
 Theorem C12_as_euler_core : forall (quat : quatR) (q r s0 : nat), (q < 3)%nat -> (r < 3)%nat -> (s0 < 3)%nat -> q <> r -> r <> s0 ->
   qnorm2 RRing quat = 1%R -> abcd_regular quat q r s0 ->
